@@ -1,0 +1,58 @@
+//go:build verif
+
+// Exports for the external verification harness (resource limits).
+// Compiled only with -tags verif; adds no behaviour to normal builds.
+
+package core
+
+// VerifSetState makes the in-memory file cache of a Metadata object (which is
+// all that getState consults) correspond to the given state.  The object
+// should come from NewMetadata; nothing is written to disk.
+func (self *Metadata) VerifSetState(st MetadataState) {
+	self.mutex.Lock()
+	defer self.mutex.Unlock()
+	self.contents = make(map[MetadataFileName]struct{})
+	switch st {
+	case Failed:
+		self.contents[Errors] = struct{}{}
+	case Complete:
+		self.contents[CompleteFile] = struct{}{}
+	case DisabledState:
+		self.contents[DisabledFile] = struct{}{}
+	case Running:
+		self.contents[LogFile] = struct{}{}
+	case Queued:
+		self.contents[JobInfoFile] = struct{}{}
+	}
+}
+
+// VerifLocalJobManager builds a LocalJobManager with the given limits without
+// consulting the machine (no /proc, cgroup or rlimit reads, no signal handler).
+// maxVmemMB <= 0 means no virtual memory semaphore; procsMax <= 0 means no
+// process-count semaphore.
+func VerifLocalJobManager(maxCores, maxMemGB int, maxVmemMB, procsMax int64,
+	settings JobManagerSettings, debug bool) *LocalJobManager {
+	self := &LocalJobManager{
+		debug:       debug,
+		jobDone:     make(chan struct{}, 1),
+		jobSettings: &settings,
+		maxCores:    maxCores,
+		maxMemGB:    maxMemGB,
+		maxVmemMB:   maxVmemMB,
+	}
+	self.centcoreSem = NewResourceSemaphore(int64(self.maxCores)*100, formatCentiThreads)
+	self.memMBSem = NewResourceSemaphore(int64(self.maxMemGB)*1024, formatMemMB)
+	if self.maxVmemMB > 0 {
+		self.vmemMBSem = NewResourceSemaphore(self.maxVmemMB, formatVMemMB)
+	}
+	if procsMax > 0 {
+		self.procsSem = NewResourceSemaphore(procsMax, DefaultResourceFormatter("processes"))
+	}
+	return self
+}
+
+// VerifSemaphores returns the semaphores of a local job manager in the order
+// cores, memory, virtual memory, processes (nil when absent).
+func (self *LocalJobManager) VerifSemaphores() [4]*ResourceSemaphore {
+	return [4]*ResourceSemaphore{self.centcoreSem, self.memMBSem, self.vmemMBSem, self.procsSem}
+}
